@@ -105,6 +105,8 @@ class Replayer:
     """Compiles the configurations of a family and replays their histories."""
 
     def __init__(self, label, rng, counters=False):
+        self.shadow = False          # build a second, younger container before the history is replayed on the first
+        self.todo_false = False      # write `todo: false` on some services that are not placeholders (single-file configurations)
         self.counters = counters
         self.label = label
         self.rng = rng
@@ -130,7 +132,8 @@ class Replayer:
         for i, e in enumerate(entries):
             d = os.path.join(self.wd, "in", e["name"])
             os.makedirs(d, exist_ok=True)
-            yamls = [concretise.to_yaml(fc, self.rng) for fc in e["files"]]
+            tf = self.rng if (self.todo_false and len(e["files"]) == 1) else None
+            yamls = [concretise.to_yaml(fc, self.rng, todo_false=tf) for fc in e["files"]]
             e["yaml"] = "\n--- next file ---\n".join(yamls)
             ins = []
             for k, y in enumerate(yamls):
@@ -178,7 +181,8 @@ class Replayer:
                     ops = [op_script(h["op"]) for h in c["hist"]]
                     if self.counters:
                         ops = [{"op": "Counters"}] + ops + [{"op": "Counters"}]
-                    scripts.append({"id": len(scripts), "pkg": e["name"], "ops": ops, "_e": e["name"], "_ci": ci})
+                    scripts.append({"id": len(scripts), "pkg": e["name"], "ops": ops, "_e": e["name"], "_ci": ci,
+                                    "shadow": bool(self.shadow and ci % 2 == 1)})
             res = pb.run([{k: v for k, v in s.items() if not k.startswith("_")} for s in scripts])
             for s in scripts:
                 out.setdefault(s["_e"], {})[s["_ci"]] = res[s["id"]]
@@ -260,9 +264,15 @@ def run_family(pid, tier, family, cfgname, v, rng, nontrivial=None, timeout=1500
     if r.violation:
         raise core.InfraError("TLC: design-level invariant violated in MC_Container/%s:\n%s" % (family, r.raw_tail[-2500:]))
     rp = Replayer("%s-%s" % (pid, family), rng, counters=counters)
+    rp.shadow = rp.todo_false = (pid == "C15")
+    if pid == "C04":
+        concretise.vary_separators(rng)
     for c in r.emitted:
         rp.add_case(c)
-    entries = rp.generate()
+    try:
+        entries = rp.generate()
+    finally:
+        concretise.vary_separators(None)
     if rejected_is_violation:
         # the family's configurations are valid by the specification and the property itself says so (todo counts as declared)
         for e in entries:
